@@ -7,6 +7,13 @@ the destination file: one invalid record of each kind at every chunk index and r
 exception raised by the input iterator before every chunk index 0..m, a count that does not fit the
 column dtype, and no fault at all (sanity).  The same stream of events is run through the Lean model
 (`createSteps` / `pipeline`, `run`) and the observable outcome is compared.
+
+Option cases (`case["opts"]`): the same enumeration (a thin slice of each fault space) with every keyword option of the
+producing calls set to non-default values: metadata (None / {} / flat / nested document / a value json cannot encode,
+which is itself a fault: `write_info` raises), assembly, extra value column + dtypes, count dtype, h5opts (valid
+variants and an unknown key = rejected on entry), boundscheck / triucheck / dupcheck off, ensure_sorted, mode "w" on an
+existing file; through create_cooler (ordered / unordered), merge_coolers, coarsen_cooler, zoomify_cooler (several
+creations into one new file), create_scool (one creation per cell) and the CLI loader `cooler load`.
 """
 from __future__ import annotations
 
@@ -29,7 +36,9 @@ THEOREMS = ["validate_accepts_iff", "validate_accepts_iff_flags", "validate_reje
             "nonroot_old_format_dropped", "run_fault", "partial_not_cooler", "frame_other_collections",
             "frame_after_run", "frame_listed", "root_unrelated_attrs_kept", "complete_is_cooler",
             "pipeline_dest", "pipeline_dest_untouched", "pipeline_partial_not_cooler", "pipeline_frame",
-            "unordered_sortpass_fault_dest_untouched", "unorderedPre_isPre", "producerPre_isPre"]
+            "unordered_sortpass_fault_dest_untouched", "unorderedPre_isPre", "producerPre_isPre",
+            "bad_metadata_never_completes", "bad_metadata_not_cooler", "optsPre_isPre", "unorderedPreBadOpts_isPre",
+            "runP_stops_at_check", "bad_opts_dest_untouched"]
 LEVELS = {"faults": "top", "partial_state": "unit", "validator": "unit", "constants": "unit"}
 DESCRIBE = {
     "faults": "fault enumeration: for one producer x destination x valid stream, EVERY injected fault (invalid record of "
@@ -44,6 +53,11 @@ DESCRIBE = {
                  "`validateCore` for all 16 flag combinations (DataFrame and dict-of-arrays input)",
     "constants": "cooler.create.MAGIC, the four table names and the default count dtype range vs the model's constants",
 }
+DESCRIBE["faults"] += ("; option cases: the same with the keyword options of the producing call set (metadata incl. values "
+                       "json cannot encode, assembly, columns/dtypes, h5opts incl. an unknown key, check flags, ensure_sorted, "
+                       "mode w on an existing file) through create_cooler, merge_coolers, coarsen_cooler, zoomify_cooler "
+                       "(model: `C13.run_seq`, one creation per level in one file), create_scool (one creation per cell) and "
+                       "the CLI `cooler load` (a malformed line = the reader raises before that chunk)")
 RULE = ("fault enumeration, EXHAUSTIVE over the fault space of each case: producers {create_cooler ordered=True, "
         "create_cooler ordered=False (mergebuf 2, thorough also max_merge 2), merge_coolers, coarsen_cooler} x destinations "
         "{new file (mode w and a; existing files: mode a, thorough also r+), new group /x/y in a file holding /a, /b/c, /old, a plain group /g and an unrelated root "
@@ -56,7 +70,17 @@ RULE = ("fault enumeration, EXHAUSTIVE over the fault space of each case: produc
         "EVERY chunk index and EVERY row position; RuntimeError "
         "raised by the iterator before EVERY chunk index 0..m; a count of 2^31 at every record; cross-chunk overflowing "
         "duplicate (unordered); merge/coarsen: aggregation exception / overflow / out-of-range or lower-triangle input "
-        "record at every input record, incompatible inputs; and no fault.  validator: ALL chunks of <=3 records over ids "
+        "record at every input record, incompatible inputs; and no fault.  OPTION CASES (per producer 9/6/6/6 quick, "
+        "18/12/12/12 thorough; plus cooler-load CLI 5/10, zoomify_cooler 4/12, create_scool 4/12): every axis "
+        "{metadata: absent, None, {}, flat, nested, not-JSON (set / complex / tuple key / object / ndarray); assembly; "
+        "columns+dtypes: extra float column, w float32, count int64 / int16 / float64 / explicit int32; h5opts: lzf, gzip-1 "
+        "no shuffle, no compression, fletcher32, unknown key; flags: boundscheck / triucheck / dupcheck off (a record whose "
+        "check is off: either outcome, the other clauses still apply), ensure_sorted with rows descending; mode w on an "
+        "existing file} cycled independently (every value of every axis equally often, pairing by seed) x destinations "
+        "{new group, new file, plain group, root, nested} x a slice of the fault space: no fault, iterator exception "
+        "before EVERY chunk, one position of every other kind per chunk (quick; thorough: every third case the full "
+        "space); zoomify: aggregation exception at level 1, at a LATER level only, lower-triangle base record; scool: "
+        "the stream faults in every cell.  validator: ALL chunks of <=3 records over ids "
         "-1..n (n=1,2 quick; n<=3 thorough) x 16 flag combinations.  non-trivial = stream with >=2 chunks or >=2 inputs; "
         "distinct by canonical JSON")
 EXHAUSTIVE = {"quick": True, "thorough": True}
@@ -65,6 +89,14 @@ TRUSTED = ["HDF5/h5py (file modes, create_group/del, dataset resize, attrs.updat
            "to the model as events: the theorems hold for every stream",
            "content of neighbouring collections is abstracted to content ids in the model; the harness compares real reads"]
 ASSUMPTIONS = [
+    "a record of a kind whose check the caller switched off (boundscheck / triucheck / dupcheck = False): whether the "
+    "creation raises is not fixed by the property ('with the default checks'); if it raises the destination must not be a "
+    "cooler, if it does not the creation must complete; the neighbours are checked either way",
+    "metadata 'JSON compatible' = what the encoder cooler uses (simplejson) accepts; the not-JSON values used are rejected "
+    "by every JSON encoder (set, complex, tuple key, arbitrary object, ndarray)",
+    "zoomify_cooler / create_scool write several collections into one file: levels / cells completed before the fault "
+    "are 'other collections' and must read back as in a run of the same call without the fault (creation-date aside); "
+    "the order in which cells are written is not fixed",
     "failures are Python exceptions leaving the creation call; process kill and HDF5-level torn writes are outside",
     "append mode (a / r+) for destinations in existing files: mode w truncates the file by documented design",
     "collections nested BELOW the destination group are part of what is replaced; a destination inside another "
@@ -96,11 +128,99 @@ def worker_init():
 # marshalling
 # ----------------------------------------------------------------------------------------------
 
-def _df(chunk, form="df"):
+def _df(chunk, form="df", extra=False):
     d = {"bin1_id": np.array([r[0] for r in chunk], dtype=np.int64),
          "bin2_id": np.array([r[1] for r in chunk], dtype=np.int64),
          "count": np.array([r[2] for r in chunk], dtype=np.int64)}
+    if extra:
+        d["w"] = np.array([r[2] * 0.5 for r in chunk], dtype=np.float64)
     return pd.DataFrame(d) if form == "df" else d
+
+
+# ----------------------------------------------------------------------------------------------
+# keyword options of the producing calls (case["opts"]: JSON tags -> real keyword arguments / model configuration)
+# ----------------------------------------------------------------------------------------------
+
+class _Opaque:
+    pass
+
+
+def _metadata(tag):
+    """the `metadata=` argument: None, JSON documents, and values that are NOT JSON compatible (json.dumps raises)"""
+    return {"none": None,
+            "empty": {},
+            "flat": {"sample": "S1", "lanes": 2, "ok": True, "ratio": 0.25, "nothing": None},
+            "nested": {"sample": {"id": "S1", "tags": ["a", "b", {"k": [1, 2.5, None]}]}, "format": "not-a-cooler",
+                       "\u00e9t\u00e9": "\u2603", "runs": [[1, 2], [], [3]]},
+            "bad_set": {"lanes": {1, 2}},
+            "bad_complex": {"z": [1, 2j]},
+            "bad_key": {"runs": {(1, 2): "x"}},
+            "bad_obj": {"deep": [{"x": _Opaque()}]},
+            "bad_array": {"v": np.arange(3)}}[tag]
+
+
+H5OPTS = {"lzf": {"compression": "lzf"},
+          "gzip1": {"compression": "gzip", "compression_opts": 1, "shuffle": False},
+          "nocomp": {"compression": None, "shuffle": False},
+          "fletcher": {"fletcher32": True},
+          "bad": {"compresion": "gzip"}}      # an unknown storage option: rejected on entry of create()
+BAD_METADATA = ["bad_set", "bad_complex", "bad_key", "bad_obj", "bad_array"]
+FLAGS = ("boundscheck", "triucheck", "dupcheck", "ensure_sorted")
+
+
+def _o(case):
+    return case.get("opts") or {}
+
+
+def _real_opts(case):
+    """keyword arguments for create_cooler / merge_coolers / coarsen_cooler / zoomify_cooler / create_scool"""
+    o, kw = _o(case), {}
+    if "metadata" in o:
+        kw["metadata"] = _metadata(o["metadata"])
+    if "assembly" in o and case["producer"] != "merge":   # merge_coolers passes assembly= itself (from input 0)
+        kw["assembly"] = o["assembly"]
+    dt = {}
+    if "count_dtype" in o:
+        dt["count"] = np.dtype(o["count_dtype"])
+    if o.get("extra"):
+        kw["columns"] = ["count", "w"]
+        if o.get("w_dtype"):
+            dt["w"] = np.dtype(o["w_dtype"])
+    if dt:
+        kw["dtypes"] = dt
+    if "h5opts" in o:
+        kw["h5opts"] = dict(H5OPTS[o["h5opts"]])
+    for f in FLAGS:
+        if f in o:
+            kw[f] = bool(o[f])
+    return kw
+
+
+def _model_opts(case):
+    """the same options as the model's configuration"""
+    o, c = _o(case), {}
+    if str(o.get("metadata", "")).startswith("bad"):
+        c["info_ok"] = False
+    for f in FLAGS:
+        if f in o:
+            c[f] = bool(o[f])
+    if "count_dtype" in o:
+        dt = np.dtype(o["count_dtype"])
+        if np.issubdtype(dt, np.integer):
+            c["count_lo"], c["count_hi"] = int(np.iinfo(dt).min), int(np.iinfo(dt).max)
+        else:
+            c["count_lo"], c["count_hi"] = -2 ** 200, 2 ** 200     # _check_fits_dtype looks at integer columns only
+    return c, o.get("h5opts") != "bad"
+
+
+def _check_off(case, fault):
+    """the injected record is of a kind whose check is switched off by the case's options: the property ('with the
+    default checks') does not fix whether the creation raises; whatever it does, the other clauses apply"""
+    o = _o(case)
+    kind = fault.get("what", fault["kind"]) if fault["kind"] == "bad_input" else fault["kind"]
+    return ((kind in ("excess", "neg") and o.get("boundscheck") is False)
+            or (kind == "tril" and o.get("triucheck") is False)
+            or (kind == "dup" and o.get("dupcheck") is False))
 
 
 def _parts(p):
@@ -158,11 +278,15 @@ def _template(d, case):
     return path, groups
 
 
-def _snapshot(uri):
+def _snapshot(uri, stable=False):
+    """what a collection reads back as; `stable`: without the attribute that differs between two runs of the same call
+    (the collection is compared with the one a run WITHOUT the fault produced)"""
     c = cooler.Cooler(uri)
     px = c.pixels()[:]
     bn = c.bins()[:]
     info = dict(c.info)
+    if stable:
+        info.pop("creation-date", None)
     return {"pixels": [[int(a), int(b), int(v)] for a, b, v in zip(px["bin1_id"], px["bin2_id"], px["count"])],
             "bins": [[str(a), int(b), int(e)] for a, b, e in zip(bn["chrom"], bn["start"], bn["end"])],
             "info": {k: (v if isinstance(v, (str, int, float, dict, list, type(None))) else str(v)) for k, v in sorted(info.items())}}
@@ -210,7 +334,7 @@ def _stream_faults(case, thorough):
                     out.append({"kind": "dup", "chunk": k, "pos": p, "rec": [ch[q][0], ch[q][1], 99]})
         for p in range(len(ch)):
             out.append({"kind": "overflow", "chunk": k, "pos": p})
-    if case["producer"] == "unordered":
+    if case["producer"] in ("unordered", "cli_load"):
         # a key present in two chunks whose counts sum beyond int32: the FINAL pass fails, in the destination
         for k in range(m):
             for k2 in range(m):
@@ -220,7 +344,7 @@ def _stream_faults(case, thorough):
     return out
 
 
-def _apply_stream_fault(chunks, fault):
+def _apply_stream_fault(chunks, fault, unsorted_rows=False):
     ch = [list(map(list, c)) for c in chunks]
     kind = fault["kind"]
     if kind in ("excess", "neg", "tril", "dup"):
@@ -232,6 +356,9 @@ def _apply_stream_fault(chunks, fault):
         r[2] = 2 ** 30
         ch[fault["chunk2"]].append([r[0], r[1], 2 ** 30])
         ch[fault["chunk2"]].sort()
+    if unsorted_rows:
+        # ensure_sorted=True: the rows of a chunk may come in any order (here: descending); the validator sorts them
+        ch = [c[::-1] for c in ch]
     events = []
     for k, c in enumerate(ch):
         if kind == "raise" and fault["at"] == k:
@@ -244,11 +371,11 @@ def _apply_stream_fault(chunks, fault):
     return events
 
 
-def _iterator(events, form):
+def _iterator(events, form, extra=False):
     for e in events:
         if "raise" in e:
             raise RuntimeError("boom")
-        yield _df(e["chunk"], form)
+        yield _df(e["chunk"], form, extra)
 
 
 def _boom_agg(s):
@@ -357,6 +484,9 @@ def _write_inputs(case, where, only=None, inputs=None, incompatible=False):
     inputs = case["inputs"] if inputs is None else inputs
     bins = gen.layout_bins(case["layout"])
     kw = dict(boundscheck=False, triucheck=False, dupcheck=False, dtypes={"count": np.int32})
+    extra = bool(_o(case).get("extra"))
+    if extra:
+        kw["columns"] = ["count", "w"]
     uris = []
     for k, px in enumerate(inputs):
         if only is not None and k != only:
@@ -366,11 +496,11 @@ def _write_inputs(case, where, only=None, inputs=None, incompatible=False):
             b = gen.layout_bins([x + 1 for x in case["layout"]], width=7)
         if only is not None:
             f, g = where.split("::")
-            _put_cooler(f, g, b, _df(px), case["symm"], **kw)
+            _put_cooler(f, g, b, _df(px, extra=extra), case["symm"], **kw)
             uris.append(where)
         else:
             uri = os.path.join(where, f"in{k}.cool")
-            cooler.create_cooler(uri, gen.bins_df(b), _df(px), symmetric_upper=case["symm"], ordered=True, mode="w", **kw)
+            cooler.create_cooler(uri, gen.bins_df(b), _df(px, extra=extra), symmetric_upper=case["symm"], ordered=True, mode="w", **kw)
             uris.append(uri)
     return uris
 
@@ -399,6 +529,8 @@ def _prepare(case):
     x.stat = {}
     x.unrelated = None
     x.was_cooler = False
+    x.refpaths = set()
+    x.ref = None
     if x.tpl:
         listing = fileops.list_coolers(x.tpl)
         model_listing = sorted("/" + "/".join(g["path"]) for g in x.groups if g["fmt"] == cooler.create.MAGIC and g["path"] != ["src"])
@@ -428,9 +560,12 @@ def _fresh(x):
         shutil.copyfile(x.tpl, x.file)
 
 
-def _model(x, case, events, pipeline, inputs_ok=True, n=None):
+def _model(x, case, events, pipeline, inputs_ok=True, n=None, opts_ok=None):
     cfg = {"target": _parts(x.dest_group), "mode": x.mode, "n": case["n"] if n is None else n, "symm": case["symm"]}
-    m = drv().ask("C13.run", cfg=cfg, fs=x.groups, events=events, pipeline=pipeline, inputs_ok=inputs_ok)
+    mo, ok = _model_opts(case)
+    opts_ok = ok if opts_ok is None else opts_ok
+    cfg.update(mo)
+    m = drv().ask("C13.run", cfg=cfg, fs=x.groups, events=events, pipeline=pipeline, inputs_ok=inputs_ok, opts_ok=opts_ok)
     if m["fault"] is not None:
         # where the run stopped: before the final create touched the destination / inside it, after how many chunks
         nch = sum(1 for e in events if "chunk" in e)
@@ -458,11 +593,21 @@ def _observe_top(x, case, fault, model, raised, msg):
     assert model["l0_ok"], f"model run contradicts a proved theorem: {model}"
     mfault = model["fault"]
     overflow = kind in ("overflow", "overflow_sum")
+    if _o(case):
+        base["opts"] = _o(case)
+    # mode "w" on an existing file truncates it by documented design: once the final create() has opened the
+    # destination the other collections are gone (the model says so too); only the destination clauses remain
+    trunc = bool(x.tpl) and x.mode == "w" and (not model["dest_untouched"] or raised is None)
     if mfault is None and raised is not None:
-        return dict(base, note="the creation raised on a valid stream / valid inputs", impl_raised=raised)
+        if _check_off(case, fault):
+            mfault = "unchecked"   # outcome not fixed by the property; the creation stopped: the fault clauses apply
+        else:
+            return dict(base, note="the creation raised on a valid stream / valid inputs", impl_raised=raised)
     if mfault is not None and raised is None:
-        if overflow:
-            mfault = None  # not rejecting an overflowing count is not C13's concern: then the creation must complete
+        if overflow or _opt_fault(case, model):
+            # not rejecting an overflowing count / an option value the documentation excludes (metadata json cannot
+            # encode, an unknown storage option) is not C13's concern: then the creation must complete
+            mfault = None
         else:
             return dict(base, note="invalid input / interrupted input stream did not raise: creation went on")
     exists = os.path.exists(x.file)
@@ -477,20 +622,20 @@ def _observe_top(x, case, fault, model, raised, msg):
         if x.dest_group in listed:
             return dict(base, note="creation failed but the destination is listed by list_coolers", listed=listed)
     # neighbours
-    for p, snap in x.neigh.items():
+    for p, snap in ({} if trunc else x.neigh).items():
         if p not in listed:
             return dict(base, note=f"collection {p} of the same file is no longer listed", listed=listed)
         if not impl(fileops.is_cooler, x.file + "::" + p):
             return dict(base, note=f"collection {p} of the same file is no longer recognised")
-        now = impl(_snapshot, x.file + "::" + p)
+        now = impl(_snapshot, x.file + "::" + p, p in x.refpaths)
         if now != snap:
             diff = [k for k in snap if snap[k] != now[k]]
             return dict(base, note=f"collection {p} of the same file reads back differently", differs=diff,
                         before={k: snap[k] for k in diff}, after={k: now[k] for k in diff})
     extra = [p for p in listed if p not in x.neigh and not _in_footprint(x.dest_group, p)]
-    if extra:
+    if extra and not trunc:
         return dict(base, note="list_coolers names collections that did not exist", extra=extra)
-    if x.unrelated is not None:
+    if x.unrelated is not None and not trunc:
         now = impl(_unrelated, x.file, x.dest_group)
         if now != x.unrelated:
             return dict(base, note="unrelated attributes / plain data changed", before=x.unrelated, after=now)
@@ -498,7 +643,7 @@ def _observe_top(x, case, fault, model, raised, msg):
     mlisted = sorted("/" + "/".join(p) for p in model["listed"])
     rl = sorted(p for p in listed if p != x.dest_group or not x.was_cooler or mfault is None)
     ml = sorted(p for p in mlisted if p != x.dest_group or not x.was_cooler or mfault is None)
-    if raised is not None or not overflow:
+    if (model["fault"] is None) == (raised is None):
         if rl != ml:
             return dict(base, note="list_coolers differs from the model's file state", impl=rl, model=ml)
     # temporary files
@@ -535,6 +680,10 @@ def _observe_state(x, case, fault, model, raised, msg):
     base = {"mismatch": True, "fault": fault, "producer": case["producer"], "dest": case["dest"], "mode": x.mode}
     mf = model["fault"]
     want = {"iter": "RuntimeError", None: None}.get(mf, mf)
+    if case["producer"] == "cli_load" and mf == "iter" and raised is not None:
+        want = raised     # a malformed line: whatever the text reader raises is propagated
+    if raised != want and (_check_off(case, fault) or (raised is None and _opt_fault(case, model))):
+        return None   # a record whose check is switched off / an excluded option value: whether the creation fails is not fixed
     if raised != want:
         return dict(base, note="exception class differs from the model's", impl=raised, model=want, message=msg)
     raw = _raw_target(x)
@@ -562,15 +711,17 @@ def _observe_state(x, case, fault, model, raised, msg):
 
 
 def _run_stream_fault(x, case, fault, observe):
-    events = _apply_stream_fault(case["chunks"], fault)
+    o = _o(case)
+    events = _apply_stream_fault(case["chunks"], fault, unsorted_rows=bool(o.get("ensure_sorted")))
     _fresh(x)
     form = case.get("form", "df")
     bins = gen.bins_df(gen.layout_bins(case["layout"]))
-    kw = {}
+    kw = _real_opts(case)
     if case["producer"] == "unordered":
-        kw = {"mergebuf": case.get("mergebuf", 2), "max_merge": case.get("max_merge", 200)}
+        kw.update({"mergebuf": case.get("mergebuf", 2), "max_merge": case.get("max_merge", 200)})
     model = _model(x, case, events, case["producer"])
-    raised, msg = _call(lambda: cooler.create_cooler(x.uri, bins, _iterator(events, form), ordered=case["producer"] == "ordered",
+    raised, msg = _call(lambda: cooler.create_cooler(x.uri, bins, _iterator(events, form, bool(o.get("extra"))),
+                                                      ordered=case["producer"] == "ordered",
                                                       symmetric_upper=case["symm"], mode=x.mode, **kw))
     return observe(x, case, fault, model, raised, msg)
 
@@ -602,38 +753,337 @@ def _run_producer_fault(x, case, fault, observe):
         x.inputs = tuple(os.path.basename(u) for u in uris)
     n_out = case["n"]
     inputs_ok = True
+    kw = _real_opts(case)
+    cols = kw.get("columns", ["count"])
     if prod == "merge":
         try:
-            it = CoolerMerger([cooler.Cooler(u) for u in uris], mergebuf=case.get("mergebuf", 2), columns=["count"], agg=agg)
+            it = CoolerMerger([cooler.Cooler(u) for u in uris], mergebuf=case.get("mergebuf", 2), columns=cols, agg=agg)
             events = _observe_events(it)
         except ValueError:
             inputs_ok, events = False, []
         model = _model(x, case, events, "producer", inputs_ok=inputs_ok)
-        raised, msg = _call(lambda: cooler.merge_coolers(x.uri, uris, mergebuf=case.get("mergebuf", 2), agg=agg, mode=x.mode))
+        raised, msg = _call(lambda: cooler.merge_coolers(x.uri, uris, mergebuf=case.get("mergebuf", 2), agg=agg, mode=x.mode, **kw))
     else:
-        it = CoolerCoarsener(uris[0], 2, case.get("chunksize", 2), columns=["count"], agg=agg, batchsize=1)
+        it = CoolerCoarsener(uris[0], 2, case.get("chunksize", 2), columns=cols, agg=agg, batchsize=1)
         n_out = len(it.new_bins)
         events = _observe_events(it)
         model = _model(x, case, events, "producer", n=n_out)
-        raised, msg = _call(lambda: cooler.coarsen_cooler(uris[0], x.uri, 2, case.get("chunksize", 2), agg=agg, mode=x.mode))
+        raised, msg = _call(lambda: cooler.coarsen_cooler(uris[0], x.uri, 2, case.get("chunksize", 2), agg=agg, mode=x.mode, **kw))
     return observe(x, case, fault, model, raised, msg)
 
 
-def _enumerate(case, observe):
+# ----------------------------------------------------------------------------------------------
+# further producers: the CLI loader, zoomify_cooler and create_scool (several creations into one file)
+# ----------------------------------------------------------------------------------------------
+
+def _rechunk(rows, cs):
+    return [rows[i:i + cs] for i in range(0, len(rows), cs)]
+
+
+def _cli_faults(case, thorough):
+    # a malformed line = the reader raises before that chunk; a lower-triangle record is no fault here (the loader
+    # reflects it); what a number beyond the count dtype becomes is the text reader's business (the overflowing SUM of two
+    # records stays); an empty input is outside (the reader rejects it before anything is created)
+    return [f for f in _stream_faults(case, thorough) if f["kind"] not in ("tril", "overflow")]
+
+
+def _run_cli_fault(x, case, fault, observe):
+    """`cooler load -f coo`: text records in any order, read `chunksize` lines at a time, through unordered ingestion"""
+    import json
+    from click.testing import CliRunner
+    from cooler.cli import cli
+    o = _o(case)
+    cs = case["chunksize"]
+    BAD = None
+    if fault["kind"] == "raise":
+        rows = [r for c in case["chunks"][:fault["at"]] for r in c] + [BAD] + [r for c in case["chunks"][fault["at"]:] for r in c]
+    else:
+        rows = [e["chunk"] for e in _apply_stream_fault(case["chunks"], fault)]
+        rows = [r for c in rows for r in c]
+    events = []
+    for c in _rechunk(rows, cs):
+        if any(r is BAD for r in c):
+            events.append({"raise": True})
+            break
+        events.append({"chunk": c})
+    _fresh(x)
+    bed, txt = os.path.join(x.work, "bins.bed"), os.path.join(x.work, "pixels.txt")
+    gen.bins_df(gen.layout_bins(case["layout"])).to_csv(bed, sep="\t", header=False, index=False)
+    with open(txt, "w") as f:
+        for r in rows:
+            f.write("1\tx\t1\n" if r is BAD else f"{r[0]}\t{r[1]}\t{r[2]}\n")
+    x.inputs = ("bins.bed", "pixels.txt", "meta.json")
+    args = ["load", "-f", "coo", "--chunksize", str(cs), "--mergebuf", str(case.get("mergebuf", 2)),
+            "--max-merge", str(case.get("max_merge", 200))]
+    opts_ok = True
+    if "metadata" in o:
+        with open(os.path.join(x.work, "meta.json"), "w") as f:
+            if o["metadata"] == "unparsable":
+                f.write('{"sample": ')
+                opts_ok = False       # rejected before the creation is entered
+            else:
+                json.dump(_metadata(o["metadata"]), f)
+        args += ["--metadata", os.path.join(x.work, "meta.json")]
+    if "assembly" in o:
+        args += ["--assembly", o["assembly"]]
+    if o.get("count_dtype") == "float64":
+        args += ["--count-as-float"]
+    elif "count_dtype" in o:
+        args += ["--field", f"count:dtype={o['count_dtype']}"]
+    if "h5opts" in o:
+        args += ["--storage-options", ",".join(f"{k}={v}" for k, v in H5OPTS[o["h5opts"]].items())]
+    if not case["symm"]:
+        args += ["--no-symmetric-upper"]
+    if x.mode != "w":
+        args += ["--append"]
+    args += [bed, txt, x.uri]
+    model = _model(x, case, events, "unordered", opts_ok=None if opts_ok else False)
+
+    def run():
+        res = CliRunner().invoke(cli, args)
+        if res.exit_code != 0:
+            raise res.exception if isinstance(res.exception, Exception) else RuntimeError(f"exit {res.exit_code}")
+    raised, msg = _call(run)
+    return observe(x, case, fault, model, raised, msg)
+
+
+class _LateBoom:
+    """aggregation that raises as soon as a pooled value exceeds `t` (a fault that only a LATER zoom level meets)"""
+
+    def __init__(self, t):
+        self.t = t
+
+    def __call__(self, s):
+        v = s.sum()
+        if v > self.t:
+            raise RuntimeError("boom")
+        return v
+
+
+def _zoom_faults(case, thorough):
+    out = [{"kind": "none"}, {"kind": "late_boom"}]
+    for r in range(len(case["inputs"][0])):
+        out.append({"kind": "agg_boom", "rec": r})
+        if case["symm"]:
+            out.append({"kind": "bad_input", "rec": r, "what": "tril"})
+    return out
+
+
+def _seq_model(x, case, fs, stages):
+    mo, opts_ok = _model_opts(case)
+    st = []
+    for g in stages:
+        cfg = {"target": _parts(g["target"]), "mode": g["mode"], "n": g["n"], "symm": case["symm"]}
+        cfg.update(mo)
+        cfg.update(g.get("cfg", {}))
+        st.append({"cfg": cfg, "events": g["events"], "pipeline": g["pipeline"], "inputs_ok": True,
+                   "opts_ok": g.get("opts_ok", opts_ok)})
+    m = drv().ask("C13.run_seq", stages=st, fs=fs)
+    if m["fault"] is not None:
+        x.stat = {f"stopped_in_creation_{min(m['stage'], 3)}_of_the_call": 1,
+                  ("stopped.before_dest_touched" if m["dest_untouched"] else "stopped.dest_half_written"): 1}
+    return m
+
+
+def _good_opts(case):
+    return _model_opts(case)[1] and _model_opts(case)[0].get("info_ok", True)
+
+
+def _opt_fault(case, model):
+    """what stopped the model's run is an option value itself (metadata json cannot encode: TypeError out of write_info;
+    an option rejected on entry: ValueError), not the stream"""
+    if model["fault"] == "TypeError":
+        return True
+    return model["fault"] == "ValueError" and (not _model_opts(case)[1] or _o(case).get("metadata") == "unparsable")
+
+
+def _run_zoom_fault(x, case, fault, observe):
+    """zoomify_cooler: the base is copied into a NEW multi-resolution file, then one coarsening per level, each reading
+    the level below from the same file: after a fault at one level the levels below are 'other collections'"""
+    from cooler._reduce import get_multiplier_sequence
+    kw = _real_opts(case)
+    cols = kw.get("columns", ["count"])
+    chunksize = case.get("chunksize", 2)
+    magic = cooler.create.MAGIC
+    if x.ref is None:
+        # the run WITHOUT a fault (same options; none at all if the options themselves are the fault)
+        x.ref = {"file": os.path.join(x.dir, "ref.mcool"), "snap": {}}
+        base = _write_inputs(case, x.dir)[0]
+        b = int(cooler.Cooler(base).binsize or 1)
+        res = [b * 2 ** k for k in range(1, case.get("levels", 2) + 1)]
+        resn, pred, mult = get_multiplier_sequence(res, {b})
+        x.ref.update(b=b, res=res, plan=[(int(resn[i]), int(resn[pred[i]]), int(mult[i])) for i in range(len(resn))
+                                         if pred[i] != -1 and int(resn[i]) != b])
+        x.ref["snap"][b] = _snapshot(base, True)
+        if _good_opts(case):
+            impl(cooler.zoomify_cooler, base, x.ref["file"], res, chunksize, **_real_opts(case))
+            for r in res:
+                x.ref["snap"][r] = impl(_snapshot, x.ref["file"] + f"::/resolutions/{r}", True)
+        os.unlink(base)
+    ref = x.ref
+    b, res, plan = ref["b"], ref["res"], ref["plan"]
+    agg = None
+    if fault["kind"] == "agg_boom":
+        agg = {"count": _boom_agg}
+    elif fault["kind"] == "late_boom":
+        if not _good_opts(case) or len(res) < 2:
+            return "skip"
+        m1 = max([p[2] for p in ref["snap"][res[0]]["pixels"]] or [0])
+        if max([p[2] for r in res[1:] for p in ref["snap"][r]["pixels"]] or [0]) <= m1:
+            return "skip"            # no pooled value of a later level exceeds those of the first
+        agg = {"count": _LateBoom(m1)}
+    inputs = _faulty_inputs(dict(case, producer="coarsen"), fault) if fault["kind"] in ("agg_boom", "bad_input") else case["inputs"]
+    if inputs is None:
+        return "skip"
+    _fresh(x)
+    uris = _write_inputs(case, x.work, inputs=inputs)
+    x.inputs = tuple(os.path.basename(u) for u in uris)
+    stages = []
+    for r, src, factor in plan:
+        source = uris[0] if src == b else ref["file"] + f"::/resolutions/{src}"
+        if src != b and not os.path.exists(ref["file"]):
+            break                    # (bad options: the first creation already fails)
+        it = CoolerCoarsener(source, factor, chunksize, columns=cols, agg=agg, batchsize=1)
+        stages.append({"target": f"/resolutions/{r}", "mode": "r+", "n": len(it.new_bins), "events": _observe_events(it),
+                       "pipeline": "producer"})
+    fs = [{"path": [], "fmt": None, "other": [], "id": None}, {"path": ["resolutions"], "fmt": None, "other": [], "id": None},
+          {"path": ["resolutions", str(b)], "fmt": magic, "other": [], "id": 20}]
+    model = _seq_model(x, case, fs, stages)
+    if fault["kind"] == "bad_input" and model["fault"] is None:
+        return "skip"                # the planted record is not invalid once pooled: a different valid input
+    raised, msg = _call(lambda: cooler.zoomify_cooler(uris[0], x.file, res, chunksize, agg=agg, **kw))
+    if raised is None and _opt_fault(case, model):
+        return "skip"                # the option value was accepted after all: no fault to look at
+    k = model["stage"]
+    x.dest_group = stages[k]["target"]
+    x.uri = x.file + "::" + x.dest_group
+    done = [r for r, _, _ in plan[:k]]
+    x.neigh = {f"/resolutions/{r}": ref["snap"][r] for r in done if r in ref["snap"]}
+    x.neigh[f"/resolutions/{b}"] = _snapshot(uris[0], True)      # the copy of the base the call was given
+    x.refpaths = set(x.neigh)
+    return observe(x, case, fault, model, raised, msg)
+
+
+def _scool_faults(case, thorough):
+    out = [{"kind": "none"}]
+    for name in sorted(case["cells"]):
+        sub = dict(case, producer="ordered", chunks=case["cells"][name])
+        out.extend(dict(f, cell=name) for f in _stream_faults(sub, thorough) if f["kind"] != "none")
+    return out
+
+
+def _run_scool_fault(x, case, fault, observe):
+    """create_scool: the file root becomes the single-cell container, then one creation per cell under /cells"""
+    o = _o(case)
+    kw = _real_opts(case)
+    names = sorted(case["cells"])
+    bins = gen.bins_df(gen.layout_bins(case["layout"]))
+    form = case.get("form", "df")
+    nofault = {"kind": "none"}
+
+    def events_of(name, f):
+        return _apply_stream_fault(case["cells"][name], f if f.get("cell") == name else nofault,
+                                   unsorted_rows=bool(o.get("ensure_sorted")))
+
+    def call(path, f):
+        cells = {name: _iterator(events_of(name, f), form, bool(o.get("extra"))) for name in names}
+        cooler.create_scool(path, bins, cells, ordered=True, symmetric_upper=case["symm"], mode=x.mode, **kw)
+
+    if x.ref is None:
+        x.ref = {"snap": {}, "neigh0": dict(x.neigh)}
+        if _good_opts(case):
+            rf = os.path.join(x.dir, "ref.scool")
+            if x.tpl:
+                shutil.copyfile(x.tpl, rf)
+            impl(call, rf, nofault)
+            for name in names:
+                x.ref["snap"][name] = impl(_snapshot, rf + "::/cells/" + name, True)
+            os.unlink(rf)
+    _fresh(x)
+    x.inputs = ()
+    raised, msg = _call(lambda: call(x.file, fault))
+    listed = impl(fileops.list_coolers, x.file) if os.path.exists(x.file) else []
+    mo, opts_ok = _model_opts(case)
+    root0 = [dict(g) for g in (x.groups or [{"path": [], "fmt": None, "other": [], "id": None}])]
+    if not _good_opts(case):
+        # the container itself is not written: an option rejected on entry, or its own `write_info` raising
+        fs = x.groups
+        stages = [{"target": "/", "mode": x.mode, "n": case["n"], "events": [], "pipeline": "ordered"}]
+    else:
+        for g in root0:
+            if g["path"] == []:
+                g["fmt"], g["id"] = "HDF5::SCOOL", None
+        fs = root0
+        bad = fault.get("cell")
+        # the order in which the cells are written is the implementation's: the model is given the cells that ARE
+        # complete, then the one holding the fault
+        order = [n for n in names if n != bad and ("/cells/" + n) in listed] + ([bad] if bad else [])
+        if not bad:
+            order = names
+        stages = [{"target": "/cells/" + n, "mode": "a", "n": case["n"], "events": events_of(n, fault), "pipeline": "ordered"}
+                  for n in order]
+    model = _seq_model(x, case, fs, stages)
+    if raised is None and _opt_fault(case, model):
+        return "skip"                # the option value was accepted after all: no fault to look at
+    k = model["stage"]
+    x.dest_group = stages[k]["target"]
+    x.uri = x.file + ("" if x.dest_group == "/" else "::" + x.dest_group)
+    x.neigh = dict(x.ref["neigh0"])
+    for g in stages[:k]:
+        n = g["target"].split("/")[-1]
+        if n in x.ref["snap"]:
+            x.neigh[g["target"]] = x.ref["snap"][n]
+    x.refpaths = {g["target"] for g in stages}
+    return observe(x, case, fault, model, raised, msg)
+
+
+def _fault_list(case):
+    """the fault space of a case; an option case (`slice`) takes a thin deterministic slice of it: no fault, the
+    iterator exception before EVERY chunk index, and one position (chosen by `salt`) of every other kind per chunk"""
     thorough = bool(case.get("thorough"))
-    stream = case["producer"] in ("ordered", "unordered")
-    faults = case.get("only") or (_stream_faults(case, thorough) if stream else _producer_faults(case, thorough))
+    prod = case["producer"]
+    stream = prod in ("ordered", "unordered", "cli_load", "scool")
+    faults = {"ordered": _stream_faults, "unordered": _stream_faults, "cli_load": _cli_faults, "scool": _scool_faults,
+              "merge": _producer_faults, "coarsen": _producer_faults, "zoomify": _zoom_faults}[prod](case, thorough)
+    if not case.get("slice"):
+        return faults
+    if _o(case).get("h5opts") == "bad" or (prod == "scool" and not _good_opts(case)) or _o(case).get("metadata") == "unparsable":
+        # rejected on entry whatever the stream: the first fault of each kind is enough
+        seen, out = set(), []
+        for f in faults:
+            if f["kind"] not in seen:
+                seen.add(f["kind"])
+                out.append(f)
+        return out
+    groups = {}
+    for f in faults:
+        groups.setdefault((f["kind"], f.get("chunk", f.get("at")), f.get("what"), f.get("cell")), []).append(f)
+    salt = int(case.get("salt", 0))
+    out = []
+    for i, g in enumerate(groups.values()):
+        picks = {(salt + i) % len(g)}
+        if not stream:
+            picks.add((salt + i + len(g) // 2) % len(g))    # merge / coarsen: two input records per kind
+        out.extend(g[q] for q in sorted(picks))
+    return out
+
+
+def _enumerate(case, observe):
+    runner = {"ordered": _run_stream_fault, "unordered": _run_stream_fault, "merge": _run_producer_fault,
+              "coarsen": _run_producer_fault, "zoomify": _run_zoom_fault, "scool": _run_scool_fault,
+              "cli_load": _run_cli_fault}[case["producer"]]
+    faults = case.get("only") or _fault_list(case)
     x = _prepare(case)
     stats = {"faults": 0}
     try:
         for fault in faults:
             try:
-                r = (_run_stream_fault if stream else _run_producer_fault)(x, case, fault, observe)
+                r = runner(x, case, fault, observe)
             except ImplRaised as e:
                 return {"mismatch": True, "fault": fault, "producer": case["producer"], "dest": case["dest"],
                         "impl_raised": e.cls, "message": e.msg, "where": e.where,
                         "note": "the implementation raised while the state after the creation attempt was inspected"}
-            if r == "skip":
+            if isinstance(r, str) and r == "skip":
                 continue
             stats["faults"] += 1
             stats[f"kind.{fault['kind']}"] = stats.get(f"kind.{fault['kind']}", 0) + 1
@@ -706,7 +1156,8 @@ CHECKS = {"faults": _faults, "partial_state": _partial_state, "validator": _vali
 
 def nontrivial(name, case):
     if name in ("faults", "partial_state"):
-        return len(case.get("chunks", [])) >= 2 or len(case.get("inputs", [])) >= 2 or case["producer"] == "coarsen"
+        return (len(case.get("chunks", [])) >= 2 or len(case.get("inputs", [])) >= 2 or len(case.get("cells", [])) >= 2
+                or case["producer"] in ("coarsen", "zoomify"))
     return name == "validator"
 
 
@@ -717,6 +1168,10 @@ def distribution(name, case):
         yield f"{name}.{'symm' if case['symm'] else 'square'}"
         if "chunks" in case:
             yield f"{name}.m={len(case['chunks'])}"
+        for k, v in sorted(_o(case).items()):
+            yield f"{name}.opt.{k}={v}"
+        if case.get("mode"):
+            yield f"{name}.mode={case['mode']}"
 
 
 def _split(rng, px, m):
@@ -776,6 +1231,100 @@ def _producer_case(rng, producer, dest, symm, thorough):
     return c
 
 
+# the option axes: every keyword option of the producing calls (value None = the keyword is not passed)
+OPT_AXES = {
+    "metadata": [None, "none", "empty", "flat", "nested", "empty", "flat", "nested", "bad"],
+    "assembly": [None, "toy1", None, "hg19"],
+    "columns": [None, {"extra": True}, {"extra": True, "w_dtype": "float32"}, {"count_dtype": "int64"},
+                {"count_dtype": "int16"}, {"count_dtype": "float64"}, {"count_dtype": "int32"},
+                {"extra": True, "count_dtype": "int64"}],
+    "h5opts": [None, "lzf", None, "gzip1", "nocomp", None, "fletcher", "bad"],
+    "flags": [None, {"boundscheck": False}, {"triucheck": False}, {"dupcheck": False}, {"ensure_sorted": True}, None,
+              {"boundscheck": False, "triucheck": False, "dupcheck": False},
+              {"ensure_sorted": True, "dupcheck": False}, {"boundscheck": True, "triucheck": True, "dupcheck": True,
+                                                          "ensure_sorted": False}],
+}
+# destinations where the recognition clause applies (the destination held no cooler before)
+OPT_DESTS = ["newgroup", "newfile", "plaingroup", "root", "nested"]
+
+
+def _axis(rng, vals, k):
+    """k values of an axis: every value as often as every other (a shuffled cycle)"""
+    out = []
+    while len(out) < k:
+        v = list(vals)
+        rng.shuffle(v)
+        out.extend(v)
+    return out[:k]
+
+
+CLI_AXES = {
+    "metadata": [None, "empty", "flat", "nested", "unparsable"],
+    "assembly": [None, "toy1"],
+    "columns": [None, {"count_dtype": "float64"}, {"count_dtype": "int64"}, None],
+    "h5opts": [None, "lzf", "gzip1", None, "bad"],
+    "flags": [None],
+}
+
+
+def _base_case(rng, producer, dest, symm, thorough):
+    if producer in ("ordered", "unordered"):
+        return _stream_case(rng, producer, dest, symm, 3, thorough, m=rng.choice([2, 3, 3]))
+    if producer in ("merge", "coarsen"):
+        return _producer_case(rng, producer, dest, symm, thorough)
+    if producer == "cli_load":
+        c = _stream_case(rng, "unordered", dest, symm, 3, thorough, m=3)
+        rows = [r for ch in c["chunks"] for r in ch] or [[0, c["n"] - 1, 3]]
+        rng.shuffle(rows)
+        cs = rng.randint(1, max(1, (len(rows) + 1) // 2))
+        c.update(producer="cli_load", chunksize=cs, chunks=_rechunk(rows, cs)[:4] if not thorough else _rechunk(rows, cs))
+        c.pop("form", None)
+        return c
+    if producer == "zoomify":
+        n = rng.randint(4, 7)
+        layout = gen.split_layout(rng, n)
+        px = gen.matrix_kinds(rng, n, symm, rng.choice(["dense-random", "full", "random"]))
+        px = [[i, j, 1 + (v % 50)] for i, j, v in px] or [[0, 0, 2], [0, n - 1, 3]]
+        return {"producer": "zoomify", "dest": "newfile", "symm": symm, "n": n, "layout": layout, "inputs": [px],
+                "chunksize": rng.choice([1, 2, 3]), "levels": 2, "thorough": thorough}
+    if producer == "scool":
+        n = rng.randint(2, 4)
+        cells = {}
+        for name in rng.sample(["cellA", "cellB", "cellC", "b10", "b9"], rng.choice([2, 3])):
+            px = gen.matrix_kinds(rng, n, symm, rng.choice(["random", "dense-random", "gaps", "diag"]))
+            cells[name] = _split(rng, [[i, j, 1 + (v % 50)] for i, j, v in px], rng.randint(1, 2))
+        c = {"producer": "scool", "dest": dest if dest in ("newfile", "root") else "newfile", "symm": symm, "n": n,
+             "layout": gen.split_layout(rng, n), "cells": cells, "form": rng.choice(["df", "dict"]), "thorough": thorough}
+        c["mode"] = rng.choice(["w", "a"]) if c["dest"] == "newfile" else "a"
+        return c
+    raise AssertionError(producer)
+
+
+def _opt_cases(rng, producer, k, thorough):
+    """k cases of one producer; each option axis is cycled through independently (every value of every axis occurs
+    floor(k/len) times at least; which values meet each other, the destination and the stream depend on the seed)"""
+    cols = {a: _axis(rng, v, k) for a, v in (CLI_AXES if producer == "cli_load" else OPT_AXES).items()}
+    dests = _axis(rng, OPT_DESTS, k)
+    for i in range(k):
+        dest = dests[i]
+        symm = rng.random() < 0.7
+        c = _base_case(rng, producer, dest, symm, thorough)
+        dest = c["dest"]
+        o = {}
+        for a in ("metadata", "assembly", "h5opts"):
+            if cols[a][i] is not None:
+                o[a] = cols[a][i]
+        if o.get("metadata") == "bad":
+            o["metadata"] = rng.choice(BAD_METADATA)
+        for a in ("columns", "flags"):
+            if cols[a][i] is not None:
+                o.update(cols[a][i])
+        if dest != "newfile" and not c.get("src_in_dest") and i % 5 == 4:
+            c["mode"] = "w"          # an existing multi-collection file, truncated by design
+        c.update(opts=o, slice=not thorough or i % 3 != 0, salt=rng.randrange(1000))
+        yield c
+
+
 CORPUS = [
     # the empty stream, an empty chunk in the middle, a one-record stream
     {"producer": "ordered", "dest": "newgroup", "symm": True, "n": 3, "layout": [3], "chunks": []},
@@ -808,6 +1357,15 @@ def cases(tier, rng):
             for producer in ("merge", "coarsen"):
                 for _ in range(reps[producer]):
                     yield "faults", _producer_case(rng, producer, dest, symm, thorough)
+    # every keyword option of the producing calls, crossed with a thin slice of each case's fault space
+    kopt = {"ordered": 18 if thorough else 9, "unordered": 12 if thorough else 6, "merge": 12 if thorough else 6,
+            "coarsen": 12 if thorough else 6, "cli_load": 10 if thorough else 5, "zoomify": 12 if thorough else 4,
+            "scool": 12 if thorough else 4}
+    for producer in ("ordered", "unordered", "merge", "coarsen", "cli_load", "zoomify", "scool"):
+        for i, c in enumerate(_opt_cases(rng, producer, kopt[producer], thorough)):
+            yield "faults", c
+            if i % 3 == 1 and producer in ("ordered", "unordered", "merge", "coarsen", "cli_load"):
+                yield "partial_state", c
     # unit: state of the half-written destination and exception classes vs `runUntil k`
     for dest in DESTS:
         for producer in ("ordered", "unordered", "merge", "coarsen"):
@@ -838,11 +1396,14 @@ def cases(tier, rng):
 
 def shrink(name, case):
     if name in ("faults", "partial_state") and not case.get("only"):
-        stream = case["producer"] in ("ordered", "unordered")
-        fs = _stream_faults(case, bool(case.get("thorough"))) if stream else _producer_faults(case, bool(case.get("thorough")))
+        fs = _fault_list(case)
         # a real fault first: the no-fault run is only the sanity member of the enumeration
         for f in sorted(fs, key=lambda f: f["kind"] == "none"):
             yield dict(case, only=[f])
+    if name in ("faults", "partial_state") and case.get("only") and _o(case):
+        # then the options, one at a time: what remains is what the failure needs
+        for k in sorted(_o(case)):
+            yield dict(case, opts={q: v for q, v in _o(case).items() if q != k})
     if name == "validator":
         for ch in case["chunks"]:
             if len(case["chunks"]) > 1:
